@@ -225,7 +225,7 @@ func runC13(c *Ctx) {
 					return ok && callName(cl) == "(*vnet.udpConnMap).find"
 				}, false)
 			}
-			okPort = hasFactOnPaths(in, isOK)
+			okPort = hasFactOnPaths(in, isOK) || hasFact(in, isOK)
 		}
 		if !okPort {
 			o.Fail(in.Pos(), "a socket can be bound without a successful ephemeral-port search or a negative conflict lookup")
@@ -652,6 +652,54 @@ func helperGuardKinds(cond ssa.Value, val bool) []string {
 			}
 		}
 	}
+	// one boolean among several results (chunk, ok := r.translateFromParent(c)): the guards under which the helper
+	// returns that boolean with the dropping value are the drop conditions
+	if ex, ok := c.(*ssa.Extract); ok {
+		neg := false
+		for cc := cond; ; {
+			u, isU := cc.(*ssa.UnOp)
+			if !isU || u.Op != token.NOT {
+				break
+			}
+			neg = !neg
+			cc = u.X
+		}
+		want := val != neg
+		if call, ok := ex.Tuple.(*ssa.Call); ok {
+			if h := helperCallee(call); h != nil && isBoolType(ex.Type()) {
+				var out []string
+				okAll := true
+				for _, in := range findInstrs(h, isReturn) {
+					ret := in.(*ssa.Return)
+					if h.Recover != nil && ret.Block() == h.Recover {
+						continue
+					}
+					rv := retValAt(ret, ex.Index)
+					if len(rv) != 1 {
+						okAll = false
+						continue
+					}
+					if isConstBool(rv[0], !want) {
+						continue
+					}
+					if !isConstBool(rv[0], want) {
+						okAll = false
+						continue
+					}
+					gs := guardsOfBlockNoExpand(ret.Block())
+					if len(gs) == 0 {
+						okAll = false
+						continue
+					}
+					g := gs[len(gs)-1]
+					out = append(out, guardKind(g.Cond, g.Val))
+				}
+				if okAll && len(out) > 0 {
+					return out
+				}
+			}
+		}
+	}
 	return []string{guardKind(cond, val)}
 }
 
@@ -790,9 +838,9 @@ func runC01(c *Ctx) {
 				o.Fail(pc.Pos(), "the router loop does not pop the queue")
 				continue
 			}
-			st = posAfter(pop)
+			st = posAfter(popSiteIn(pc, pop))
 			end = func(in ssa.Instruction) bool {
-				return isReturn(in) || isQueueCall(in, "peek") || isQueueCall(in, "pop")
+				return isReturn(in) || isQueueCall(in, "peek") || isQueueCall(in, "pop") || callsQueueHead(in)
 			}
 		}
 		ev := fwdIn[f]
@@ -1026,7 +1074,15 @@ func runC01(c *Ctx) {
 	}
 	if tout != nil && tout.Call.Args[1] != nil {
 		// the translated chunk is the dequeued one
-		if ex, ok := origin(tout.Call.Args[1]).(*ssa.Extract); !ok || !sameOrigin(ex.Tuple, ssa.Value(pop.(*ssa.Call))) {
+		var poppedV ssa.Value
+		if refs := pop.(*ssa.Call).Referrers(); refs != nil {
+			for _, rf := range *refs {
+				if ex, ok := rf.(*ssa.Extract); ok && ex.Index == 0 {
+					poppedV = ex
+				}
+			}
+		}
+		if ex, ok := origin(tout.Call.Args[1]).(*ssa.Extract); (!ok || !sameOrigin(ex.Tuple, ssa.Value(pop.(*ssa.Call)))) && !(poppedV != nil && sameOrigin(tout.Call.Args[1], poppedV)) {
 			o.Fail(tout.Pos(), "the router translates another chunk than the one it dequeued")
 		}
 	}
@@ -1224,4 +1280,42 @@ func vnetExclude(p *Prog, anchors ...*ssa.Function) {
 	}
 	ex = append(ex, p.Func("vnet", "", "newChunkUDP"), p.Func("vnet", "", "newUDPConn"), p.Func("vnet", "", "newNAT"))
 	setUnitExclude(ex...)
+}
+
+// popSiteIn: the instruction of f through which the dequeue is reached: the pop itself, or the call (in f) of the
+// private helper that contains it.
+func popSiteIn(f *ssa.Function, pop ssa.Instruction) ssa.Instruction {
+	site := pop
+	for d := 0; d < unitDepth && site.Parent() != f; d++ {
+		h := site.Parent()
+		if !isPrivateHelper(h) || curSites == nil {
+			break
+		}
+		var up ssa.Instruction
+		for _, s := range curSites.sites[h] {
+			if s.Parent() == f || isIn(s.Parent(), f) {
+				up = s
+			}
+		}
+		if up == nil {
+			break
+		}
+		site = up
+	}
+	return site
+}
+
+// callsQueueHead: a call of a private helper that peeks or pops the queue (the next iteration's dequeue).
+func callsQueueHead(in ssa.Instruction) bool {
+	h := helperCallee(in)
+	if h == nil {
+		return false
+	}
+	found := false
+	instrsOfU(h, func(x ssa.Instruction) {
+		if isQueueCall(x, "peek") || isQueueCall(x, "pop") {
+			found = true
+		}
+	})
+	return found
 }
